@@ -80,13 +80,79 @@ chk('C13', 'model_checking',
     'sharing (shared leaves, lists and empty lists, also at top level) up to '
     'the bound; every final state is replayed into nodes.reduplicate: tokens '
     'unchanged, identities pairwise distinct, clean nodes keep identity, '
-    'argument unmodified.  (The strategy-level half - the base handed to every '
-    'task generator is a tree - is checked on recorded runs by C05.)',
+    'argument unmodified.  Recorded runs over inputs with sharing mutators are validated by '
+    'TLC (TraceHier/TraceDdmin: the input of every Producer/TaskGenerator is '
+    'a tree).',
     'Bounded DAGs (<= 6/7 positions); a node must keep its identity only if '
     'nothing below it had to be copied.',
     'TLA+ reference predicate on TLC-enumerated DAGs replayed into the '
     'implementation',
-    'GenForest.tla, SExpr.tla', 'DESIGN.md section 5, C13')
+    'GenForest.tla, SExpr.tla, TraceHier.tla, TraceDdmin.tla', 'DESIGN.md section 5, C13')
+
+STRAT_NOTE = ('Completion orders of the real pool are sampled (free-running '
+              'runs with seeded command delays), the model covers all of them; '
+              'the native reduction system of the model (erase/replace on a '
+              'flat list) abstracts the real mutators; the launcher wraps '
+              'module-level functions and adds only a logging lock.')
+
+chk('C01', 'model_checking',
+    'Hier.tla / Ddmin.tla state OutfileAccepted (the file always holds an '
+    'input the command was run on and accepted) and TLC checks it for all '
+    'deterministic commands x all schedules of producer, workers, result '
+    'delivery and main loop. Real CLI runs (3 strategies x -j 1/2/4 x 3 output '
+    'modes x comparison options, some with a cross check) are recorded by a '
+    'launcher and validated by TLC against TraceHier/TraceDdmin, which replay '
+    'them through the model\'s own main-loop action bodies; from outside the '
+    'final file\'s tokens must be a run-and-accepted candidate of the command '
+    'log, the re-run command must match golden, the input must be unchanged.',
+    STRAT_NOTE,
+    'TLC model checking of the strategy specs + TLC trace validation of '
+    'recorded CLI runs + external re-run of the command',
+    'Hier.tla, Ddmin.tla, TraceHier.tla, TraceDdmin.tla',
+    'DESIGN.md section 5, C01')
+
+chk('C02', 'model_checking',
+    'Hier.tla states FixedPoint and LastSweepFull at termination; TLC checks '
+    'them over all commands and schedules (discarded successes, restarts, '
+    'pass changes). Recorded hierarchical/hybrid runs are validated by TLC '
+    '(TraceHier: the end event is accepted only after a sweep of the last '
+    'pass from node 0 on the final input that adopted nothing); every '
+    'proposal of every enabled mutator on the output is enumerated and the '
+    'command predicate evaluated; ddSMT is re-run on its own output.',
+    STRAT_NOTE + ' Commands in this check do not distinguish fresh-variable '
+    'names.',
+    'TLC model checking + TLC trace validation + exhaustive external '
+    'enumeration of proposals on the output',
+    'Hier.tla, TraceHier.tla', 'DESIGN.md section 5, C02')
+
+chk('C05', 'model_checking',
+    'Hier.tla / Ddmin.tla state Chain, NoStaleAdoption and FinalIsLast; TLC '
+    'checks them over every completion order for 2-3 workers, including two '
+    'workers succeeding before either sees the abort flag and (ddmin) a task '
+    'assembled while stop/update runs. Free-running real runs (-j 2/3/4, '
+    'permissive commands so that several candidates of a sweep succeed, '
+    'seeded delays) are validated by TLC: every write must be the adoption of '
+    'a task of the current sweep/batch derived from the current input and '
+    'accepted by a check of exactly that candidate.',
+    STRAT_NOTE,
+    'TLC model checking of all interleavings + TLC trace validation of '
+    'free-running parallel executions',
+    'Hier.tla, Ddmin.tla, TraceHier.tla, TraceDdmin.tla',
+    'DESIGN.md section 5, C05')
+
+chk('C18', 'model_checking',
+    'Hier.tla with one worker satisfies FirstSuccessAdopted for every schedule '
+    'of producer thread, worker and main loop, Ddmin.tla in sequential mode '
+    'has no schedule at all (TLC). Each -j 1 configuration is run 3 times '
+    'with PYTHONHASHSEED 0/1/random and different command delays: accepted '
+    'sequences and output bytes must be identical; TLC validates each trace '
+    'with the one-job clause (an adoption only after every earlier task of '
+    'the sweep was tested and rejected).',
+    STRAT_NOTE,
+    'TLC model checking (1 worker) + repeated runs under different hash seeds '
+    '+ TLC trace validation',
+    'Hier.tla, Ddmin.tla, TraceHier.tla, TraceDdmin.tla',
+    'DESIGN.md section 5, C18')
 
 NOT_YET = 'check not built yet (work in progress; see DESIGN.md section 10)'
 NOT_APPLICABLE = {}
@@ -103,6 +169,15 @@ ENGINES = [
      'TLA+ spec: generator of forests with sharing'),
     ('GenSubst.tla', 'specs/GenSubst.tla',
      'TLA+ spec: generator of (forest, simplification) pairs'),
+    ('Hier.tla', 'specs/Hier.tla',
+     'TLA+ spec: strategy_hierarchical.reduce (producer thread, workers, '
+     'main loop, abort flag)'),
+    ('Ddmin.tla', 'specs/Ddmin.tla',
+     'TLA+ spec: strategy_ddmin (_check_par/_check_seq, TaskGenerator)'),
+    ('TraceHier.tla', 'specs/TraceHier.tla',
+     'TLA+ trace spec reusing Hier.tla action bodies'),
+    ('TraceDdmin.tla', 'specs/TraceDdmin.tla',
+     'TLA+ trace spec reusing Ddmin.tla action bodies'),
     ('Conform.tla', 'specs/Conform.tla',
      'TLA+ trace/case validation of recorded implementation behaviour'),
 ]
